@@ -301,3 +301,40 @@ NEUTRAL += [
     {"id": "n-qr-cursor-not", "props": ["C03"],
      "edits": [(B, "    if (m_qr_read >= m_query_responses.size()) {", "    if (!(m_qr_read < m_query_responses.size())) {")]},
 ]
+
+MUTANTS += [
+    # ---------------------------------------------------------------- C12
+    m("c12-full-missing-mm", "C12", "R12.3", [(BH, "                   m_address_event_counts.size() >= m_block_parameters.storage_parameters.max_block_items ||\n                   m_malformed_messages.size() >= m_block_parameters.storage_parameters.max_block_items;", "                   m_address_event_counts.size() >= m_block_parameters.storage_parameters.max_block_items;")],
+      "full() ignores the malformed-message array"),
+    m("c12-full-gt", "C12", "R12.3", [(BH, "            return m_query_responses.size() >= m_block_parameters.storage_parameters.max_block_items ||", "            return m_query_responses.size() > m_block_parameters.storage_parameters.max_block_items ||")], "full() uses > for the query/response array"),
+    m("c12-no-rearm", "C12", "R12.4", [(CH, "            m_block.clear();\n            m_block.set_block_parameters(m_file_preamble.get_block_parameters(m_active_block_parameters),\n                                         m_active_block_parameters);\n            return written;", "            m_block.clear();\n            return written;")],
+      "write_block() does not re-arm the block with the active parameters"),
+    m("c12-clear-first", "C12", "R12.4", [(CH, "            std::size_t written = write_block(m_block);\n            m_block.clear();", "            CdnsBlock copy(m_block);\n            m_block.clear();\n            std::size_t written = write_block(copy);")], "block cleared before it is written"),
+    m("c12-swallow", "C12", "R12.4", [(CH, "            std::size_t written = write_block(m_block);\n            m_block.clear();", "            std::size_t written = 0;\n            try {\n                written = write_block(m_block);\n            }\n            catch (std::exception& e) {\n            }\n            m_block.clear();")],
+      "write failure swallowed and the block cleared anyway"),
+    m("c12-flush-inverted", "C12", "R12.1", [(CH, "            if (m_block.add_malformed_message(mm, stats))\n                written = write_block();", "            if (!m_block.add_malformed_message(mm, stats))\n                written = write_block();")], "buffer_mm flushes when the block is not full"),
+    m("c12-return-false", "C12", "R12.2", [(B, "    m_malformed_messages.push_back(mm);\n\n    if (stats)\n        m_block_statistics = stats;\n\n    return full() ? true : false;", "    m_malformed_messages.push_back(mm);\n\n    if (stats)\n        m_block_statistics = stats;\n\n    return false;")],
+      "direct add_malformed_message never reports a full block"),
+    m("c12-double-insert", "C12", "R12.5", [(B, "    if (qr_filled)\n        m_query_responses.push_back(qr);", "    if (qr_filled) {\n        m_query_responses.push_back(qr);\n        if (qr.asn)\n            m_query_responses.push_back(qr);\n    }")], "records with an asn are stored twice"),
+    m("c12-rotate-clears", "C12", "R12.5", [(CH, "            if (export_current_block)\n                written += write_block();\n", "            if (export_current_block)\n                written += write_block();\n            else\n                m_block.clear();\n")], "rotation without export drops the buffered records"),
+    m("c12-counter", "C12", "R12.6", [(CH, "            return m_block.get_aec_count();", "            return m_block.get_qr_count();")], "aec counter reports the qr count"),
+    # ---------------------------------------------------------------- C17
+    m("c17-write-before-throw", "C17", "R17.2", [(TS, "        if (back > ticks)\n            throw std::runtime_error(\"Adding offset to Timestamp would create invalid Timestamp!\");\n\n        ticks -= back;", "        m_secs = 0;\n        if (back > ticks)\n            throw std::runtime_error(\"Adding offset to Timestamp would create invalid Timestamp!\");\n\n        ticks -= back;")],
+      "member written before the refusal test"),
+    m("c17-revert-f8", "C17", "R17.1", [(TS, "        uint64_t back = static_cast<uint64_t>(-(offset + 1)) + 1;", "        uint64_t back = static_cast<uint64_t>(-1 * offset);")], "-1 * INT64_MIN"),
+    m("c17-lt-ticks", "C17", "R17.3", [(TSH, "            if ((m_secs == rhs.m_secs) && (m_ticks < rhs.m_ticks))\n                return true;\n\n            return false;\n        }\n\n        /**\n         * @brief Operator `smaller or equal than`", "            if (m_ticks < rhs.m_ticks)\n                return true;\n\n            return false;\n        }\n\n        /**\n         * @brief Operator `smaller or equal than`")],
+      "operator< compares ticks without requiring equal seconds"),
+    m("c17-le-strict", "C17", "R17.3", [(TSH, "            if ((m_secs == rhs.m_secs) && (m_ticks <= rhs.m_ticks))", "            if ((m_secs == rhs.m_secs) && (m_ticks < rhs.m_ticks))")], "operator<= is not reflexive"),
+    m("c17-earliest-reversed", "C17", "R17.4", [(B, "    if (gmm.ts && ((m_query_responses.size() == 0 && m_malformed_messages.size() == 0) ||\n                  (*gmm.ts < m_block_preamble.earliest_time)))", "    if (gmm.ts && ((m_query_responses.size() == 0 && m_malformed_messages.size() == 0) ||\n                  (m_block_preamble.earliest_time < *gmm.ts)))")],
+      "earliest time raised instead of lowered by malformed messages"),
+    m("c17-earliest-first-only-qr", "C17", "R17.4", [(B, "    if (gr.ts && ((m_query_responses.size() == 0 && m_malformed_messages.size() == 0) ||", "    if (gr.ts && ((m_query_responses.size() == 0) ||")], "first-record test ignores buffered malformed messages"),
+    m("c17-no-rate-check", "C17", "R17.1", [(TS, "void CDNS::Timestamp::add_time_offset(int64_t offset, uint64_t ticks_per_second)\n{\n    if (ticks_per_second == 0)\n        throw std::runtime_error(\"Ticks per second resolution is zero!\");\n", "void CDNS::Timestamp::add_time_offset(int64_t offset, uint64_t ticks_per_second)\n{\n")], "division by a zero tick rate"),
+    m("c17-earliest-after-store", "C17", "R17.4", [(B, "    if (mm.time_offset && ((m_query_responses.size() == 0 && m_malformed_messages.size() == 0) ||\n                            (mm.time_offset < m_block_preamble.earliest_time)))\n        m_block_preamble.earliest_time = *mm.time_offset;\n\n    m_malformed_messages.push_back(mm);", "    m_malformed_messages.push_back(mm);\n\n    if (mm.time_offset && ((m_query_responses.size() == 0 && m_malformed_messages.size() == 0) ||\n                            (mm.time_offset < m_block_preamble.earliest_time)))\n        m_block_preamble.earliest_time = *mm.time_offset;")],
+      "earliest time updated after the store (first-record test sees the new item)"),
+]
+NEUTRAL += [
+    {"id": "n-full-not-lt", "props": ["C12"],
+     "edits": [(BH, "            return m_query_responses.size() >= m_block_parameters.storage_parameters.max_block_items ||", "            return !(m_query_responses.size() < m_block_parameters.storage_parameters.max_block_items) ||")]},
+    {"id": "n-lt-nested-if", "props": ["C17"],
+     "edits": [(TSH, "            if ((m_secs == rhs.m_secs) && (m_ticks < rhs.m_ticks))\n                return true;\n\n            return false;\n        }\n\n        /**\n         * @brief Operator `smaller or equal than`", "            if (m_secs == rhs.m_secs) {\n                if (m_ticks < rhs.m_ticks)\n                    return true;\n            }\n\n            return false;\n        }\n\n        /**\n         * @brief Operator `smaller or equal than`")]},
+]
